@@ -214,6 +214,18 @@ pub fn make_nla(ctx: &mut Ctx, cfg: &ClientCfg) -> crate::refsrv::nla::Nla {
             pairs.insert(at, (7, time));
         }
     }
+    if ctx.chance("long_dns_names", 1, 8) {
+        // DNS names may have 255 characters: with three of them the TSRequest no longer fits 1500 bytes
+        let k = 1 + ctx.choose("long_dns_n", 3) as usize;
+        for id in [3u16, 4, 5].iter().take(k) {
+            let l = *ctx.pick("long_dns_len", &[255usize, 254, 200, 120]);
+            let name: String = (0..l).map(|i| if i % 32 == 31 { '.' } else { (b'a' + (i % 26) as u8) as char }).collect();
+            pairs.retain(|(i, _)| i != id);
+            let at = ctx.choose("long_dns_at", pairs.len() as u64 + 1) as usize;
+            pairs.insert(at, (*id, utf16le(&name)));
+        }
+        ctx.probe("tsrequest_beyond_1500_bytes_possible");
+    }
     let cc = ChallengeCfg {
         server_challenge: challenge,
         target_name: if ctx.chance("tname", 1, 2) { "SRV".to_string() } else { gen_string(ctx, "tname_v", 20, true) },
